@@ -197,6 +197,27 @@ def build_family(tier, seed):
             for op in (("fuse", (((0, 1),), mode)), ("fuse_unfuse", (((0, 1),),)), ("fuse_unfuse", (((1, 0),),)), ("reshape", ((-1,),)), ("tensordot_self", ((1,),))):
                 cases.append(dict(variants=tuple(specs), ops=(op,), cache_sizes=(8192, 1)))
         groups[f"history/{nm}"] = ([dict(body="body_history", spec=c, sample=(i % 40 == 0), seed=seed + i) for i, c in enumerate(cases)], False)
+    # same index tables, directions and stored sectors under *different symmetries* (generic classes): the cache key must
+    # separate them, the fused charges differ ([+,-] pairs combine to -1/1 under U1, to 1 under Z2, to 3/1 under Z4)
+    xs = []
+    cm = ((0, 1), (1, 2))
+    for duals in itertools.product((False, True), repeat=3):
+        ixs = tuple((cm, d) for d in duals)
+        for q in (0, 1):
+            common = None
+            per = {}
+            for sym in ("U1", "Z2", "Z4"):
+                qs = q if sym != "Z2" else q % 2
+                secs = set(fam.sectors_of(sym, ixs, qs)) if qs in fam.possible_charges(sym, ixs) else set()
+                per[sym] = qs
+                common = secs if common is None else (common & secs)
+            if not common:
+                continue
+            pres = tuple(sorted(common))
+            specs = [dict(sym=sym, generic=True, fermionic=False, indices=ixs, charge=per[sym], present=pres, phases=(), oddpos=None) for sym in ("U1", "Z2", "Z4")]
+            for op in (("fuse", (((0, 1),), "insert")), ("fuse", (((2, 0),), "insert")), ("fuse_unfuse", (((0, 1),),)), ("tensordot_self", ((0, 1),)), ("reshape", ((-1,),))):
+                xs.append(dict(variants=tuple(specs), ops=(op,), cache_sizes=(8192, 1)))
+    groups["history/cross-symmetry-generic"] = ([dict(body="body_history", spec=c, seed=seed + i) for i, c in enumerate(xs)], False)
     return groups
 
 
